@@ -10,10 +10,15 @@ Picks == ndJsonDeserialize(IOEnv.PICKS)
 VARIABLES n, f
 vars == <<n, f>>
 
-Base(k) == LET p == Picks[k]  o == Instance(p.c, p.s, p.d) IN [c |-> p.c, o |-> o, L |-> FileW(p.c, o)]
-\* a base file must be valid: both readers give the instance back
-ValidBase(b) == LET ri == ReadF(b.c, b.L, "ideal")  rr == ReadF(b.c, b.L, "real")
-                IN ri.ok /\ ri.o = b.o /\ rr.ok /\ rr.o = b.o /\ rr.ev \cap UnsafeEvents = {}
+\* class "Raw": the valid file is given by its lines of tokens (files written by the real writers of the grid exchange
+\* formats): the fault layer applies, there is no reader model
+Base(k) == LET p == Picks[k] IN
+           IF p.c = "Raw" THEN [c |-> "Raw", o |-> <<>>, L |-> p.lines]
+           ELSE LET o == Instance(p.c, p.s, p.d) IN [c |-> p.c, o |-> o, L |-> FileW(p.c, o)]
+\* a base file must be valid: the intended reader gives the instance back (whether the real reader does is C08's business;
+\* RealOK: the transcription of the real reader reads it back without any memory-unsafe event)
+ValidBase(b) == b.c = "Raw" \/ LET ri == ReadF(b.c, b.L, "ideal") IN ri.ok /\ ri.o = b.o
+RealOK(b) == LET rr == ReadF(b.c, b.L, "real") IN rr.ok /\ rr.ev \cap UnsafeEvents = {}
 
 FaultCase(k, b, j, ft) ==
   LET L2 == ApplyFault(b.L, ft)
@@ -34,7 +39,7 @@ Next == /\ f = 0
 Emit == \/ f = 0
         \/ LET b == Base(n) IN
            CASE f = -1 -> PrintT(ToJson([base |-> n, c |-> b.c, kind |-> "invalid-base"]))
-             [] f = -2 -> PrintT(ToJson([base |-> n, c |-> b.c, kind |-> "base", lines |-> b.L, o |-> b.o, nfaults |-> NFaults(b.L)]))
+             [] f = -2 -> PrintT(ToJson([base |-> n, c |-> b.c, kind |-> "base", lines |-> b.L, o |-> b.o, nfaults |-> NFaults(b.L), realok |-> RealOK(b)]))
              [] OTHER  -> LET ft == FaultAt(b.L, b.c, f) IN
                           IF ft.kind = "noop" THEN PrintT(ToJson([base |-> n, j |-> f, c |-> b.c, kind |-> "noop"]))
                           ELSE PrintT(ToJson(FaultCase(n, b, f, ft)))
